@@ -43,6 +43,7 @@ Spec == Init /\ [][Next]_vars
 ModeSame == modeFile' = modeFile
 CleanRemovesData == [][K_CleanRemovesData(last', Cur, Nxt)]_vars
 CleanNothingElse == [][K_CleanNothingElse(last', Cur, Nxt, ModeSame)]_vars
+CleanKeepsNonEmptyDirs == [][K_CleanKeepsNonEmptyDirs(last', Cur, Nxt)]_vars
 ModeOnlyMode     == [][K_ModeOnlyMode(last', Cur, Nxt)]_vars
 NoOpWhenSame     == [][K_NoOpWhenSame(last', Cur, Nxt, ModeSame)]_vars
 Records          == [][K_Records(last', Cur, ReadBack(modeFile'), ReadBack(modeFile'), {Today})]_vars
